@@ -312,7 +312,12 @@ class OkImplies:
                 out = frozenset()
                 vn = self._variant_name(dty, v)
                 if vn is not None:
-                    out = frozenset([("is", vn, self.desc_place(body, rv["p"]))])
+                    dsc = self.desc_place(body, rv["p"])
+                    tix = [e for e in rv["p"]["p"] if re.match(r"^\.\d+:\d*$", e)]
+                    if tix and dsc.startswith("call:"):
+                        # element of a tuple returned by a call (e.g. the two results of join)
+                        dsc += "#" + tix[-1][1:].split(":")[0]
+                    out = frozenset([("is", vn, dsc)])
                 if okv is not None and v == okv:
                     vf = self.value_facts(body, {"c": rv["p"]} if not rv["p"]["p"] else None, rv["p"])
                     if vf is TOP:
